@@ -161,9 +161,9 @@ def solver_trace(events, solver, iters, nols):
             if nols:
                 ex = 0
             else:
-                r = alpha0 / f["alpha"]
-                ex = int(round(math.log2(r))) if r > 0 else 99999
-                if f["alpha"] * (2.0 ** ex) != alpha0:
+                r = alpha0 / f["alpha"] if f["alpha"] else float("inf")
+                ex = int(round(math.log2(r))) if (r > 0 and math.isfinite(r)) else 99999
+                if ex != 99999 and (abs(ex) > 1000 or f["alpha"] * (2.0 ** ex) != alpha0):
                     ex = 99999
             suff = bool(f["curr"] - f["new"] >= f["rhs"])
             # branch actually taken: accepted iff the next trial (if any) belongs to the next iteration, or this is the
